@@ -681,6 +681,10 @@ fn build_history(ops: &Sx, modes: &Sx, cfg: Config) -> Option<AnnotationStore> {
             // save now: the members that qualify become stand-off, the store is written
             assign_files(&mut store, modes)?;
             store.to_json_string(&cfg).ok()?;
+        } else if op.nth(0).int() == 13 {
+            assign_files(&mut store, modes)?;
+        } else if op.nth(0).int() == 12 {
+            export_copy(&mut store, op, modes, &cfg)?;
         } else if op.nth(0).int() == 10 {
             let n = op.nth(1).int();
             let _ = guard(|| store.add_new_substore(format!("sub{}", n), format!("sub{}.store.stam.json", n).as_str()));
@@ -700,6 +704,51 @@ fn build_history(ops: &Sx, modes: &Sx, cfg: Config) -> Option<AnnotationStore> {
     }
     assign_files(&mut store, modes)?;
     Some(store)
+}
+
+/// export a copy of a member (or of the store document) to the directory backup/, under the member's own file
+/// name or under another name; the store and its own files are not concerned
+fn export_copy(store: &mut AnnotationStore, op: &Sx, modes: &Sx, cfg: &Config) -> Option<()> {
+    let h = op.nth(2).int() as usize;
+    let other = op.nth(3).int() != 0;
+    match op.nth(1).int() {
+        0 | 1 => {
+            let r = match store.resource(TextResourceHandle::new(h)) {
+                Some(r) => r,
+                None => return Some(()),
+            };
+            let own = r.as_ref().filename().map(|f| f.to_string());
+            let json = op.nth(1).int() == 1;
+            let name = match (&own, other) {
+                (Some(f), false) => format!("backup/{}", f),
+                _ => format!("backup/copy-r{}.{}", h, if json { "json" } else { "txt" }),
+            };
+            if json {
+                r.as_ref().to_json_file(&name, r.as_ref().config()).ok()?;
+            } else {
+                r.as_ref().to_txt_file(&name).ok()?;
+            }
+        }
+        2 => {
+            let d = match store.dataset(AnnotationDataSetHandle::new(h)) {
+                Some(d) => d,
+                None => return Some(()),
+            };
+            let own = d.as_ref().filename().map(|f| f.to_string());
+            let name = match (&own, other) {
+                (Some(f), false) => format!("backup/{}", f),
+                _ => format!("backup/copy-s{}.annotationset.stam.json", h),
+            };
+            d.as_ref().to_json_file(&name, d.as_ref().config()).ok()?;
+        }
+        _ => {
+            // the store document elsewhere: a serialisation like any other (the stand-off members are flushed)
+            assign_files(store, modes)?;
+            let name = if other { "backup/copy.store.stam.json" } else { "backup/main.store.stam.json" };
+            store.to_json_file(name, cfg).ok()?;
+        }
+    }
+    Some(())
 }
 
 fn assign_files(store: &mut AnnotationStore, modes: &Sx) -> Option<()> {
@@ -896,7 +945,7 @@ impl Ctx {
         let n = self.counter.fetch_add(1, AOrd::SeqCst);
         let dir = format!("{}/w{}", self.dir, n % 8);
         let _ = std::fs::remove_dir_all(&dir);
-        let _ = std::fs::create_dir_all(&dir);
+        let _ = std::fs::create_dir_all(format!("{}/backup", dir));
         let r = guard(|| self.exec_in(req, &dir));
         let _ = std::fs::remove_dir_all(&dir);
         match r {
@@ -1300,6 +1349,21 @@ pub fn generate(out: &mut Out, tier: &str, seed: u64) {
             }
         }
     }
+    // 3a. exports of copies between modification and save: the members get their stand-off names (or the store
+    //     was saved and then modified), a copy of a resource / dataset / the store document is written to
+    //     backup/ under the member's own file name or another name, then the store is saved
+    for rmode in 0..4 {
+        for smode in 0..2 {
+            for kind in 0..4 {
+                for wher in 0..2 {
+                    for variant in 0..3 {
+                        out.count("request_export_copy");
+                        emit(&ctx, out, export_family(kind, wher, variant, rmode, smode));
+                    }
+                }
+            }
+        }
+    }
     // 3b. exhaustive small scope: a fixed prefix, then every sequence of 2 (thorough: 3) operations from an
     //     alphabet of 22 (all selector kinds, alignments, relative offsets, removals of every kind, a save)
     let alpha = alphabet();
@@ -1332,6 +1396,12 @@ pub fn generate(out: &mut Out, tier: &str, seed: u64) {
                 let pos = rng.below(ops.len() + 1);
                 ops.insert(pos, l(vec![a(9)]));
                 out.count("save_in_between");
+            }
+            for _ in 0..rng.below(3) {
+                let pos = rng.below(ops.len() + 1);
+                let op = if rng.chance(1, 3) { l(vec![a(13)]) } else { l(vec![a(12), a(rng.below(4) as i64), a(rng.below(3) as i64), a(rng.below(2) as i64)]) };
+                ops.insert(pos, op);
+                out.count("export_or_naming_in_between");
             }
         }
         emit(&ctx, out, l(vec![a(0), l(ops), modes]));
@@ -1490,6 +1560,44 @@ fn alphabet() -> Vec<Sx> {
     ]
 }
 
+/// variant 0: name the files, export, save; 1: save, modify (new data for an existing key, new annotation),
+/// export, save; 2: name the files, export twice (both members), modify, save
+fn export_family(kind: i64, wher: i64, variant: usize, rmode: i64, smode: i64) -> Sx {
+    let id = |t: i64| l(vec![a(0), a(t)]);
+    let cb = |n: i64| l(vec![a(0), a(n)]);
+    let int = |z: i64| l(vec![a(2), a(z)]);
+    let txt = |b: i64, e: i64| l(vec![a(0), id(0), cb(b), cb(e)]);
+    let data = |key: i64, v: Sx| l(vec![id(0), a(-1), id(key), v]);
+    let export = |k: i64, h: i64| l(vec![a(12), a(k), a(h), a(wher)]);
+    let mut ops = vec![
+        l(vec![a(0), a(0), a(8)]),
+        l(vec![a(0), a(1), a(5)]),
+        l(vec![a(3), a(0), txt(1, 4), l(vec![data(0, int(1))])]),
+        l(vec![a(3), a(-1), l(vec![a(0), id(1), cb(0), l(vec![a(1), a(-1)])]), l(vec![data(1, int(2))])]),
+    ];
+    let modify = l(vec![a(3), a(2), txt(0, 3), l(vec![data(0, int(7))])]);
+    match variant {
+        0 => {
+            ops.push(l(vec![a(13)]));
+            ops.push(export(kind, if kind == 2 { 0 } else { (wher + kind) % 2 }));
+        }
+        1 => {
+            ops.push(l(vec![a(9)]));
+            ops.push(modify);
+            ops.push(export(kind, 0));
+        }
+        _ => {
+            ops.push(l(vec![a(13)]));
+            ops.push(export(0, 0));
+            ops.push(export(0, 1));
+            ops.push(export(2, 0));
+            ops.push(export(kind, 1));
+            ops.push(modify);
+        }
+    }
+    l(vec![a(0), l(ops), l(vec![a(rmode), a(smode)])])
+}
+
 const N_MODS: usize = 14;
 /// a store with a dataset and a resource (stand-off or not), saved, modified in one way, (saved and
 /// modified once more,) and saved again by the final write
@@ -1596,5 +1704,5 @@ fn family(kind: usize, m: i64, ids: bool, gap: bool, so: usize) -> Sx {
     l(vec![a(1), l(vec![if ids { t("store") } else { a(-1) }, l(ress), l(sets), l(anns)])])
 }
 
-pub const RULE: &str = "(1) an exhaustive family of 432 literal stores: 9 selector kinds (text, annotation, annotation with offset, resource, dataset, key, data, multi, composite/directional) x 4 alignments x with/without public identifiers x with/without removed slots (annotation, key, data) x inline / stand-off txt / stand-off json; (2) seeded random literal stores: 1-3 resources with texts over an alphabet with quote, backslash, control characters, DEL, non-BMP and U+FFFF/U+10FFFF/U+2028, identifiers over the same alphabet, 0-2 datasets with keys, data with and without identifiers, values of all seven types (integer extremes, floats on the 1/1000 grid, nested lists to depth 2, datetimes with offsets and nanoseconds), up to 6 annotations over all selector kinds and alignments incl. offsets relative to annotations and complex selectors, removed slots of every item type, stand-off resources (txt, json, identifier = file name) and datasets; (3) save/modify/save families (14 kinds of modification x resource inline/txt/json x dataset inline/stand-off x once/twice) and an exhaustive small scope: a fixed prefix (resource, annotation with id and data, id-less annotation in mixed alignment) followed by EVERY sequence of 2 (thorough: 3) operations from an alphabet of 22 (all selector kinds, alignments, relative offsets, complex selectors, removals of every kind, save); (4) histories with one or two sub-stores (family of 36 + random, natural arrangement and late additions), (5) the final stores of seeded random histories of the shared store generator (all operations incl. removals with cascades, ids and handles, invalid references, range compression) inline and with stand-off members. Each store is written as STAM JSON pretty and compact, both outputs are parsed into trees and compared with the model's documents, the stand-off files likewise; the store is loaded again from the string and from a file, observed again (canonical observation by names, slot layout, every reverse lookup and id resolution by name), written again (bytes equal), saved with save(). One evaluation = one compared sub-case (8 per store).";
+pub const RULE: &str = "(1) an exhaustive family of 432 literal stores: 9 selector kinds (text, annotation, annotation with offset, resource, dataset, key, data, multi, composite/directional) x 4 alignments x with/without public identifiers x with/without removed slots (annotation, key, data) x inline / stand-off txt / stand-off json; (2) seeded random literal stores: 1-3 resources with texts over an alphabet with quote, backslash, control characters, DEL, non-BMP and U+FFFF/U+10FFFF/U+2028, identifiers over the same alphabet, 0-2 datasets with keys, data with and without identifiers, values of all seven types (integer extremes, floats on the 1/1000 grid, nested lists to depth 2, datetimes with offsets and nanoseconds), up to 6 annotations over all selector kinds and alignments incl. offsets relative to annotations and complex selectors, removed slots of every item type, stand-off resources (txt, json, identifier = file name) and datasets; (3) save/modify/save families (14 kinds of modification x resource inline/txt/json x dataset inline/stand-off x once/twice) and an exhaustive small scope: a fixed prefix (resource, annotation with id and data, id-less annotation in mixed alignment) followed by EVERY sequence of 2 (thorough: 3) operations from an alphabet of 22 (all selector kinds, alignments, relative offsets, complex selectors, removals of every kind, save); (3a) exports of copies between modification and save (to_txt_file / to_json_file of a resource, to_json_file of a dataset or of the store document, to backup/ under the member's own file name or another name; 192 requests, and sprinkled over the random histories); (4) histories with one or two sub-stores (family of 36 + random, natural arrangement and late additions), (5) the final stores of seeded random histories of the shared store generator (all operations incl. removals with cascades, ids and handles, invalid references, range compression) inline and with stand-off members. Each store is written as STAM JSON pretty and compact, both outputs are parsed into trees and compared with the model's documents, the stand-off files likewise; the store is loaded again from the string and from a file, observed again (canonical observation by names, slot layout, every reverse lookup and id resolution by name), written again (bytes equal), saved with save(). One evaluation = one compared sub-case (8 per store).";
 pub const EXHAUSTIVE: bool = false;
